@@ -63,7 +63,8 @@ pub fn replay(args: &[String]) {
 
 const NUMS: &[&str] = &[
     "0", "1", "7", "10", "007", "00", "4294967295", "4294967296", "18446744073709551615",
-    "18446744073709551616", "9999999999999999999999999", "123456789",
+    "18446744073709551616", "9999999999999999999999999", "123456789", "18446744073709551614", "4294967294", "2147483648",
+    "9223372036854775807", "9223372036854775808", "000", "0000000000000000000000",
 ];
 const IDS: &[&str] = &["alpha", "rc", "x", "-", "a-b", "0a", "00a", "A1", "Z", "beta2", "--1", "post", "dev", "epoch"];
 const JUNK: &[char] = &[
